@@ -1512,7 +1512,12 @@ def convert_mul_max_to_abs_or_lrelu(op: Operation, arch, nng) -> Operation:
         op.name = op.name.replace("Maximum", new_op.name)
         op.outputs[0].name = op.outputs[0].name.replace("Maximum", new_op.name)
         op.inputs = [shared_in]
+        # Only the inputs have changed. The OFM shape must not be re-derived from the OFM tensor, which can be the
+        # (differently shaped) output of a bypassed memory only operator, e.g. a Reshape
+        ofm_shapes = op.ofm_shapes
         op.set_ifm_ofm_shapes()
+        if ofm_shapes:
+            op.ofm_shapes = ofm_shapes
 
         # Record optimisation in debug database
         DebugDatabase.add_optimised(op, op)
